@@ -216,6 +216,12 @@ def parallelize(  # noqa: C901
         queue_handler = list(logger.handlers)[0]
         queue_handler.queue = lqueue
 
+        # The master process reads the status queue only while it evaluates its
+        # own tasks. Hence, this process must not wait at its end until all its
+        # status information has been read.
+        if squeue is not None:
+            squeue.cancel_join_thread()
+
         result_list = []
         for (task_idx, (args, kwargs)) in enumerate(sub_args_list):
             if rss is not None:
